@@ -12,6 +12,7 @@ import Indi.Spec.BufRun
 import Indi.Spec.Num
 import Indi.Model.B64
 import Indi.Model.Dev
+import Indi.Spec.Dev
 
 open Indi Indi.Wire
 
@@ -287,8 +288,49 @@ def devRun : Dev.Device → List Dev.Op → List String
   | _, [] => []
   | d, op :: rest => let r := Dev.step d op; encDevResult r :: devRun r.dev rest
 
+def pCall (task : Bool) : P Dev.Call := do
+  let t ← tok
+  let hid ← match t.toList with
+    | 'h' :: r => (match (String.ofList r).toNat? with
+      | some n => pure n
+      | none => fail)
+    | _ => fail
+  let k ← tok
+  let kind : Dev.EvKind ← (match k with
+    | "W" => pure Dev.EvKind.write
+    | "C" => pure Dev.EvKind.change
+    | _ => fail)
+  let o ← pValue; let n ← pValue; let sn ← pValue
+  pure { handler := hid, kind := kind, old := o, new := n, seen := sn, task := task }
+
 def handle (ts : List String) : String :=
   match ts with
+  | "spec" :: "c07" :: rest =>
+    match runP (do let d ← pDevice; let n ← pOpt; let ms ← pList pMsg; pure (d, n, ms)) rest with
+    | some (d, n, ms) => if Spec.Dev.namesDistinct d then encBool (Spec.Dev.c07Holds d n ms) else "na"
+    | none => "bad-op"
+  | "spec" :: "c12" :: rest =>
+    match runP (do let d ← pDevice; let m ← pMsg; let r ← pBool; let d' ← pDevice; pure (d, m, r, d')) rest with
+    | some (d, m, r, d') => encBool (Spec.Dev.c12Holds d m r d')
+    | none => "bad-op"
+  | "spec" :: "c14" :: rest =>
+    match runP (do
+        let d ← pDevice; let a ← pAddr; let w ← pBool; let v ← pValue; let r ← pBool
+        let cs ← pList (pCall false); let tsk ← pList (pCall true); let n ← pNat; let d' ← pDevice
+        pure (d, a, w, v, r, cs, tsk, n, d')) rest with
+    | some (d, a, w, v, r, cs, tsk, n, d') =>
+      match Spec.Dev.c14Holds d a w v r cs tsk n d' with
+      | some b => encBool b
+      | none => "na"
+    | none => "bad-op"
+  | "spec" :: "readsback" :: rest =>
+    match runP pMsg rest with
+    | some m => encBool (Spec.Dev.readsBack Generated.registry m)
+    | none => "bad-op"
+  | "spec" :: "normeq" :: rest =>
+    match runP (do let a ← pMsg; let b ← pMsg; pure (a, b)) rest with
+    | some (a, b) => encBool (Spec.Dev.norm a == Spec.Dev.norm b)
+    | none => "bad-op"
   | "dev" :: "run" :: rest =>
     match runP (do let d ← pDevice; let ops ← pList pDevOp; pure (d, ops)) rest with
     | some (d, ops) => String.intercalate " | " (devRun d ops)
